@@ -167,6 +167,11 @@ class SimWorld:
         event.callbacks.append(lambda ev, text=text: self.log("~cb", "callback", text))
         return event
 
+    def label_process(self, proc, name):
+        """A Process is an event: its callbacks run once, when it has ended (C18 scenarios)."""
+        if self.scenario.get("process_callbacks"):
+            proc.callbacks.append(lambda ev, name=name: self.log("~cb", "callback", "proc:" + name))
+
     def make_events(self):
         for name in self.scenario.get("events", ()):
             self.events[name] = self.label(self.env.event(), "ev:" + name)
@@ -253,6 +258,7 @@ class SimWorld:
             proc = env.process(self.process(spec))
             self.procs[spec["name"]] = proc
             self.proc_name[id(proc)] = spec["name"]
+            self.label_process(proc, spec["name"])
         elif kind == "join":
             try:
                 value = yield self.procs[op["proc"]]
@@ -345,6 +351,7 @@ class SimWorld:
                         proc = self.env.process(self.process(spec))
                         self.procs[spec["name"]] = proc
                         self.proc_name[id(proc)] = spec["name"]
+                        self.label_process(proc, spec["name"])
 
     async def _native_activity(self, op):
         if op.get("scoped"):
@@ -569,6 +576,7 @@ class SimWorld:
             proc = self.env.process(self.process(spec))
             self.procs[spec["name"]] = proc
             self.proc_name[id(proc)] = spec["name"]
+            self.label_process(proc, spec["name"])
 
 
 def execute(case, setup=None):
